@@ -302,6 +302,15 @@ def run(ctx):
     lt = tlc.run("Termination", "TM_linger_term.cfg", scratch=ctx.scratch, timeout=600, parse_trace=False)
     if not lt.ok:
         ctx.machinery(f"TLC Termination/TM_linger_term: {lt.violated} {lt.error[:300]}")
+    # members without a local process (socket gateways to a hand-started server): nothing to kill, but the bound holds; a safe_terminate
+    # whose last wait is unbounded is rejected
+    uk = tlc.run("Termination", "TM_unkillable.cfg", scratch=ctx.scratch, timeout=600, parse_trace=False)
+    if not uk.ok:
+        ctx.machinery(f"TLC Termination/TM_unkillable: {uk.violated} {uk.error[:300]}")
+    ub = tlc.run("Termination", "TM_unbounded_wait.cfg", scratch=ctx.scratch, timeout=600, parse_trace=False)
+    if ub.violated != "TerminatePrompt":
+        ctx.machinery(f"TLC mutant Termination/TM_unbounded_wait not killed by TerminatePrompt ({ub.violated})")
+    ctx.note(f"TLC Termination/TM_unkillable: {uk.generated} states; an unbounded final wait in safe_terminate is killed by {ub.violated}")
     envs = ["idle", "receive", "busy", "sleep", "swallow", "sigign", "thread", "nondaemon", "stopped", "dead"]
     scs = []
     for env in envs:
